@@ -49,8 +49,16 @@ func genC10(seed uint64) *Scenario {
 		ops = append(ops, op)
 	}
 	bp := func(b bool) *bool { return &b }
+	sharedMeta := r.Chance(850) // swarm: one Swagger meta-schema object for all validations of the run (10x faster after the first) / each document's own
+	reuse := r.Chance(500)      // swarm: the validations of this run share one loaded document object / load the bytes afresh each time
 	churn := func() {
 		for i := 0; i < r.Intn(3); i++ {
+			if r.Chance(250) {
+				// another document (same definition / operation names, other contents) validated in between
+				od, _ := GenSpec(r, pick(r, []int{0, 1, 2, 4}))
+				add(Op{Kind: KSpec, Doc: js(od), COE: bp(r.Chance(500)), OrderSeed: r.U64() | 1, SharedMeta: sharedMeta, Role: "other-doc"})
+				continue
+			}
 			if r.Chance(700) {
 				add(v.schemaOp(g, []string{KAgainst, KSchemaRec, KSchemaNR}))
 			} else {
@@ -58,8 +66,6 @@ func genC10(seed uint64) *Scenario {
 			}
 		}
 	}
-	sharedMeta := r.Chance(850) // swarm: one Swagger meta-schema object for all validations of the run (10x faster after the first) / each document's own
-	reuse := r.Chance(500)      // swarm: the validations of this run share one loaded document object / load the bytes afresh each time
 	nval := pick(r, []int{2, 3, 4, 4, 5, 6, 8})
 	if deep() {
 		nval = pick(r, []int{3, 4, 6, 8, 10, 14})
